@@ -20,7 +20,7 @@ fn is_git_space(c: u8) -> bool {
 /// git 2.39 `parse_value()` on the value text as written (`src` keeps `\`+LF continuations).
 /// `ws_verbatim`: keep unquoted interior blanks as written (git >= 2.45 and gitoxide) instead of one SP per blank.
 /// `bs_pops`: `\b` removes the previous output byte (gitoxide) instead of emitting BS.
-fn model_value3(src: &[u8], ws_verbatim: bool, bs_pops: bool, keep_leading: bool) -> Vec<u8> {
+fn model_value3(src: &[u8], ws_verbatim: bool, bs_pops: bool, keep_leading: bool, lead_cr: bool) -> Vec<u8> {
     let mut out = Vec::new();
     let mut pending: Vec<u8> = Vec::new();
     let mut quote = false;
@@ -30,19 +30,17 @@ fn model_value3(src: &[u8], ws_verbatim: bool, bs_pops: bool, keep_leading: bool
     while i < src.len() {
         let c = src[i];
         i += 1;
-        if !is_git_space(c) {
-            touched = true;
-        }
         if c == b'\n' {
             // only reachable inside quotes in texts git accepts; stop like git does
             break;
         }
-        if is_git_space(c) && !quote {
-            if !out.is_empty() || (keep_leading && c != b'\r') || (keep_leading && touched) {
+        if is_git_space(c) && !quote && !(lead_cr && c == b'\r' && out.is_empty() && !touched) {
+            if !out.is_empty() || keep_leading {
                 pending.push(c);
             }
             continue;
         }
+        touched = true;
         if !quote && (c == b';' || c == b'#') {
             break;
         }
@@ -78,7 +76,7 @@ fn model_value3(src: &[u8], ws_verbatim: bool, bs_pops: bool, keep_leading: bool
 }
 
 fn model_value(src: &[u8], ws_verbatim: bool, bs_pops: bool) -> Vec<u8> {
-    model_value3(src, ws_verbatim, bs_pops, false)
+    model_value3(src, ws_verbatim, bs_pops, false, false)
 }
 
 fn lower(b: &[u8]) -> Vec<u8> {
@@ -431,7 +429,7 @@ pub fn main() {
     let known1 = known.clone();
     ck.sub(
         "values",
-        SubCfg::new(4_000, 100_000).max_len(1500).max_shrink(120).max_discard_pct(30),
+        SubCfg::new(10_000, 150_000).max_len(1500).max_shrink(120).max_discard_pct(30),
         move |t, c| {
             let doc = gen_doc(t, Opts::git_compatible());
             let nq = t.weighted(&[2, 3, 2, 1]);
@@ -525,14 +523,15 @@ pub fn main() {
                         let msg = format!("{} = {:?} for gitoxide, {:?} for git (value text {:?})", show(&g.full_key()), show(&e.value), show(gv), show(&e.src));
                         if e.ill_formed {
                             f.add("continuation-at-eof-value", msg);
-                        } else if e.src.starts_with(b"\r") && e.value.trim_start_with(|c| c == '\r') == gv.as_slice() {
-                            f.add("leading-cr-not-skipped", msg);
                         } else {
                             // which of gitoxide's three known deviations from git 2.39 explain the value?
                             let mut explained = false;
-                            for mask in 1..8u8 {
-                                let (ws, bs, lead) = (mask & 1 != 0, mask & 2 != 0, mask & 4 != 0);
-                                if e.value == model_value3(&e.src, ws, bs, lead) {
+                            for mask in [1u8, 2, 4, 8, 3, 5, 6, 9, 10, 12, 7, 11, 13, 14, 15] {
+                                let (ws, bs, lead, cr) = (mask & 1 != 0, mask & 2 != 0, mask & 4 != 0, mask & 8 != 0);
+                                if e.value == model_value3(&e.src, ws, bs, lead, cr) {
+                                    if cr {
+                                        f.add("leading-cr-not-skipped", msg.clone());
+                                    }
                                     if ws {
                                         f.add("inner-whitespace-verbatim", msg.clone());
                                     }
@@ -665,8 +664,8 @@ pub fn main() {
     );
 
     let known2 = known.clone();
-    ck.sub("typed", SubCfg::new(1_500, 40_000).max_len(400).max_shrink(40), move |t, c| {
-        let n = t.range(1, 6);
+    ck.sub("typed", SubCfg::new(3_000, 45_000).max_len(400).max_shrink(40), move |t, c| {
+        let n = t.range(1, 2);
         let vals: Vec<TypedValue> = (0..n).map(|_| typed_value(t)).collect();
         let mut text = b"[t]\n".to_vec();
         for (i, v) in vals.iter().enumerate() {
